@@ -115,7 +115,7 @@ func writeEvidence(c *Check, res *checkResult) {
 		"wall_s":     wall,
 		"violations": res.Violations,
 	}
-	dir := filepath.Join(e.VerifDir, "evidence")
+	dir := filepath.Join(e.OutDir, "evidence")
 	os.MkdirAll(dir, 0o755)
 	b, err := json.MarshalIndent(ev, "", " ")
 	if err != nil {
